@@ -295,24 +295,27 @@ def run(res):
   for k in range(n_seq):
     merges.append(g.random_seqs(r))
 
-  # e2e jobs: corpus, all exhaustive tables over <=3 user classes, a sample of the rest, random tables
+  # e2e jobs: corpus; exhaustive tables stratified by CPython's verdict; random tables (truncated at the first refusal)
   n_e2e = 6000 if thorough else 560
   e2e_tabs = [(H, a) for _, H, a in corpus]
-  small = [H for H in ex if len(H) <= 4]
   r2 = common.rng(res.seed, "c10", "e2e")
-  pick_small = small if thorough else r2.sample(small, min(len(small), 120))
-  e2e_tabs += [(H, None) for H in pick_small]
-  big = [H for H in ex if len(H) > 4]
-  e2e_tabs += [(H, None) for H in r2.sample(big, min(len(big), (n_e2e // 4)))]
+  groups = {"ok": [], "inc": [], "dup": []}
+  for H in ex:
+    _, f, msg = g.cpython_table(H)
+    groups["ok" if f is None else ("dup" if msg.startswith("duplicate") else "inc")].append(H)
+  if thorough:
+    e2e_tabs += [(H, None) for H in ex if len(H) <= 4]
+  for key, frac in (("ok", 0.35), ("inc", 0.2), ("dup", 0.1)):
+    e2e_tabs += [(H, None) for H in r2.sample(groups[key], min(len(groups[key]), int(frac * n_e2e)))]
   while len(e2e_tabs) < n_e2e:
-    H = g.random_table(r2, r2.randint(2, 9), max_bases=3, p_dup=0.04, p_wild=0.08)
+    H = g.random_table(r2, r2.randint(2, 9), max_bases=3, p_dup=0.03, p_wild=0.06)
     e2e_tabs.append((g.truncate_at_first_failure(H)[0], None))
   jobs = []
   for k, (H, attrs) in enumerate(e2e_tabs):
     H = g.truncate_at_first_failure(H)[0]
     attrs = (attrs or g.random_attrs(r2, H))[:len(H)]
     stub_frac = 0.4 if thorough else 0.25
-    mode = "stub" if (k % 100) < stub_frac * 100 else "source"
+    mode = "stub" if r2.random() < stub_frac else "source"
     jobs.append(make_job(len(jobs), mode, H, attrs, r2.randrange(4)))
     if k < len(corpus):   # corpus tables go through both modes
       jobs.append(make_job(len(jobs), "stub" if mode == "source" else "source", H, attrs, 1))
